@@ -229,6 +229,9 @@ func (r *Run) Sample(v any) {
 func (r *Run) Inconclusive(why string) {
 	r.mu.Lock()
 	r.inconclusive++
+	if r.inconclusive <= 12 {
+		fmt.Printf("NOTE inconclusive case (never a verdict): %s\n", truncate(why, 300))
+	}
 	if len(r.notes) < 40 {
 		r.notes = append(r.notes, "inconclusive: "+why)
 	}
